@@ -127,6 +127,9 @@ class ttensor:
 
     def _matches_order(self, array: np.ndarray) -> bool:
         """Check if provided array matches tensor memory layout."""
+        if sparse.issparse(array):
+            # A sparse factor matrix has no dense memory layout to match
+            return True
         if array.flags["C_CONTIGUOUS"] and self.order == "C":
             return True
         if array.flags["F_CONTIGUOUS"] and self.order == "F":
